@@ -15,9 +15,9 @@ CLAIMS = {
         note="Proved: 20 functions of regex.rs / check.rs / parse.rs + Index impls. Assumed: shims for RoaringBitmap, the followpos BTreeMap, UstrMap, RegexInternPool, OnceCell (prelude/), derived Clone, rewrite rules R1/R2/R3/R3e/R9/R12; positions fit u32 (precondition). Not proved: the Glushkov theorem (sets -> language), dfa_from_regex, do_minimize, the from_grammar glue and the preconditions it must establish (bounded only).",
         design="§7 C02", tech="Verus contracts (spec functions and translation relations over the arenas, loop invariants, ghost snapshots, induction lemmas) on mechanically extracted regex.rs / check.rs / parse.rs functions; bounded pipeline equivalence as labelled stand-in", cat="proof"),
     "C03": dict(
-        text="Verus proves the minimiser's helper dfa::find_bounds (binary search + two scans, termination included): on the transition image sorted by target it returns exactly the slice of transitions whose target lies in the group's id range, or None exactly when there is none. The property itself is decided by a labelled bounded stand-in on the real DFA::minimize: for every automaton produced from the grammar corpus (all trees <= 4/5 nodes + random), language preserved (product search), every state reachable and live, state count equals that of the canonical minimal automaton; within-word automata likewise.",
-        note="Only find_bounds is under contract (assumed: slice::binary_search_by per its std documentation, prelude/bsearch.rs; closure hoisted by rule R13). do_minimize (Hopcroft refinement over hash sets of interned bitmaps), renumber_states and the two filters are not: nothing about language preservation or minimality is counted as proved.",
-        design="§7 C03", tech="Verus contract on the extracted find_bounds; bounded exhaustive comparison against an independent Moore minimisation (stand-in)", cat="exploration"),
+        text="Verus proves the minimiser's helpers on the real code: dfa::find_bounds (binary search + two scans, termination included) returns exactly the slice of the target-sorted transition image whose targets lie in the group's id range, or None exactly when there is none; keep_only_states_with_input_transitions keeps exactly the transitions that leave the start state or join two states something leads into, and exactly the accepting states that are the start state or have an incoming transition; eliminate_nonaccepting_states_without_output_transitions keeps exactly the transitions whose target accepts or has a way out; renumber_states copies the automaton through a gap-free, injective renumbering of its states with the start state first. The property itself (language preserved, trim, minimal) is decided by a labelled bounded stand-in on the real DFA::minimize: for every automaton produced from the grammar corpus (all trees <= 4/5 nodes + random), language preserved (product search), every state reachable and live, state count equals that of the canonical minimal automaton; within-word automata likewise.",
+        note="Assumed: slice::binary_search_by per its std documentation (prelude/bsearch.rs), HashMap / RoaringBitmap shims, derived Clone of Transition; closures hoisted by rules R13 / R3f / R17 and given their contracts. do_minimize's partition refinement (Hopcroft over hash sets of interned bitmaps), make_transitions_image and hashmap_transitions_from_vec are not under contract: nothing about language preservation or minimality is counted as proved.",
+        design="§7 C03", tech="Verus contracts on the extracted helpers of the minimiser; bounded exhaustive comparison against an independent Moore minimisation (stand-in)", cat="exploration"),
     "C04": dict(
         text="Kani proves the per-shell index base constants (bash 0, fish 1, zsh 1, pwsh 0) on the extracted items. Everything else is a labelled bounded stand-in on the real code over the grammar corpus x 4 shells: (1) the LookupTables every emitter prints (literal list longest-first with ids from the shell's base, match tables, per-level completion tables, command ids, within-word automaton ids, feature flags) are recomputed independently from the automaton and compared; (2) isomorphic_to / shape_hash: every pair of distinct within-word table sets met in the corpus (plus level-permuted seeds) must not be reported isomorphic, isomorphic ones must hash alike; (3) the TEXT emitted by all four real emitters is read back with that shell's own table syntax and index base (bash/zsh associative-array initialisers, fish parallel `set` lists, PowerShell hashtables; string constants through the C07 decoders) and must equal those tables, with one command function per id holding the command verbatim, the start state, the description attached to each literal id, and the registration for the command name.",
         note="Not a proof beyond the constants. The emitted text is decoded by readers written for this check, not by the shells (only bash is installed); the run-time code of the scripts (matching loops) is not interpreted here.",
